@@ -47,9 +47,15 @@ thread_local! {
     /// armed by the `tlsProbe` op: its destructor calls the tracing API while the thread's
     /// local storage is being torn down
     static PROBE: std::cell::RefCell<Option<Probe>> = const { std::cell::RefCell::new(None) };
+    /// the same probe in a thread-local that is touched at thread start, before the thread's first tracing
+    /// call: it is destroyed *after* fastrace's own thread-locals, so its destructor meets them destroyed
+    static PROBE_EARLY: std::cell::RefCell<Option<Probe>> = const { std::cell::RefCell::new(None) };
 }
 
 static PROBE_PANICKED: std::sync::atomic::AtomicBool = std::sync::atomic::AtomicBool::new(false);
+/// how often the `SpanContext::random()` part of a teardown probe panicked (reported by `probeStats`)
+static PROBE_RANDOM_PANICS: std::sync::atomic::AtomicUsize = std::sync::atomic::AtomicUsize::new(0);
+static PROBE_RANDOM_RUNS: std::sync::atomic::AtomicUsize = std::sync::atomic::AtomicUsize::new(0);
 
 // ------------------------------------------------------------------------------- adapters
 //
@@ -209,6 +215,16 @@ impl Drop for Probe {
             let r = Span::root("tls-root", SpanContext::new(TraceId(1), SpanId(1)).sampled(false));
             drop(r);
         }));
+        // ids drawn from `rand`'s thread-local generator, which may already be destroyed
+        let r2 = catch_unwind(AssertUnwindSafe(|| {
+            let s = Span::root("tls-random-root", SpanContext::random().sampled(false));
+            drop(s);
+            let _ = (TraceId::random(), SpanId::random());
+        }));
+        PROBE_RANDOM_RUNS.fetch_add(1, std::sync::atomic::Ordering::SeqCst);
+        if r2.is_err() {
+            PROBE_RANDOM_PANICS.fetch_add(1, std::sync::atomic::Ordering::SeqCst);
+        }
         if r.is_err() {
             PROBE_PANICKED.store(true, std::sync::atomic::Ordering::SeqCst);
         }
@@ -717,6 +733,7 @@ fn thread_op(k: usize, guards: &mut Vec<G>, w: &[&str]) -> Option<String> {
         ["tlsProbe", v] => {
             let held = take_span(v);
             PROBE.with(|p| *p.borrow_mut() = Some(Probe { held }));
+            PROBE_EARLY.with(|p| *p.borrow_mut() = Some(Probe { held: None }));
             "ok".into()
         }
         ["spam", n] => {
@@ -743,6 +760,8 @@ fn spawn_logical(k: usize) -> Logical {
     let join = std::thread::Builder::new()
         .name(format!("logical-{}", k))
         .spawn(move || {
+            // registers the early probe's destructor before anything of fastrace is touched on this thread
+            PROBE_EARLY.with(|_| {});
             let mut guards: Vec<G> = vec![];
             IO.with(|io| {
                 *io.borrow_mut() = Some(ThreadIo { k, rx: trx, tx: ttx.clone(), guards: &mut guards as *mut Vec<G> })
@@ -1061,6 +1080,11 @@ fn run_case() {
                     format!("rep {}", show_records(&all, true))
                 }
             }
+            ["probeStats"] => format!(
+                "probe random_runs={} random_panics={}",
+                PROBE_RANDOM_RUNS.load(std::sync::atomic::Ordering::SeqCst),
+                PROBE_RANDOM_PANICS.load(std::sync::atomic::Ordering::SeqCst)
+            ),
             ["procstats"] => {
                 let mut n = 0;
                 if let Ok(rd) = std::fs::read_dir("/proc/self/task") {
